@@ -269,3 +269,14 @@ func runCase(c *Case, f func()) (o Outcome) {
 	o.Status = "ok"
 	return
 }
+
+// ParseLnCol parses the "Ln x, Col y: " prefix of a diagnostic.
+func ParseLnCol(s string) (line, col int, ok bool) {
+	var rest string
+	n, err := fmt.Sscanf(s, "Ln %d, Col %d:%s", &line, &col, &rest)
+	if n >= 2 && strings.HasPrefix(s, fmt.Sprintf("Ln %d, Col %d: ", line, col)) {
+		return line, col, true
+	}
+	_ = err
+	return 0, 0, false
+}
